@@ -646,7 +646,7 @@ def real_gen(tree):
     ls = G.tokens_of(code)
     if ls is None:
         return 'untokenizable', code
-    return 'ok', ls
+    return 'ok', ls, code
 
 
 def trees_of(case):
@@ -821,7 +821,7 @@ def compare_model(cases, res):
     """Lean gen vs ASTCodeGenerator on the same trees, as token streams"""
     compare_parse(cases, res)
     compare_parseS(cases, res)
-    lines, meta, lv = [], [], []
+    lines, meta, lv, ch = [], [], [], []
     for c in cases:
         try:
             tree = trees_of(c)
@@ -836,7 +836,10 @@ def compare_model(cases, res):
         meta.append((c, real))
         if real[0] == 'ok':
             lv.append((c, tree, [t for _, l in real[1] for t in l]))
+        if real[0] in ('ok', 'raises'):
+            ch.append((c, tree, real))
     compare_leaves(lv, res)
+    compare_chars(ch, res)
     answers = proto.run_lines(lines)
     for (c, real), ans in zip(meta, answers):
         stream = 'gen-' + c['mode']
@@ -860,6 +863,65 @@ def compare_model(cases, res):
         res.count('model:' + ('raises' if want == 'raises' else 'ok'))
         if model != want:
             res.disagreements.append({'stream': stream, 'case': c, 'model': repr(model)[:600], 'real': repr(want)[:600]})
+
+
+def compare_chars(items, res):
+    """character level: the string the Lean writer model produces (`codeE` / `codeS`, Model/PyLayout.lean) vs
+    ASTCodeGenerator(tree).code, compared exactly; and the Lean line-structure reader `retok` on that string vs
+    CPython's tokenize (depth of every logical line, and the text of the line tokenizes to the line's tokens)"""
+    lines, meta = [], []
+    for c, tree, real in items:
+        try:
+            if c['mode'] == 'eval':
+                req = proto.line(Atom('C13'), Atom('code'), G.to_wire(tree.body))
+            else:
+                req = proto.line(Atom('C13'), Atom('codeS'), [G.to_wire(s) for s in tree.body])
+        except RecursionError:
+            res.count('chars:recursion-limit')
+            continue
+        lines.append(req)
+        meta.append((c, real))
+    answers = proto.run_lines(lines)
+    for (c, real), ans in zip(meta, answers):
+        stream = 'chars-' + c['mode']
+        if ans == 'unmodelled':
+            res.count('chars:unmodelled')
+            continue
+        res.streams[stream] = res.streams.get(stream, 0) + 1
+        try:
+            model = proto.dec(ans)
+        except Exception:  # noqa
+            model = Atom(ans)
+        if real[0] == 'raises':
+            res.count('chars:raises')
+            if model != 'raises':
+                res.disagreements.append({'stream': stream, 'case': c, 'model': repr(model)[:600], 'real': 'raises ' + real[1]})
+            continue
+        code = real[2]
+        nl = code.count('\n')
+        res.count('chars:lines=%s' % ('1' if nl <= 1 else '2-5' if nl <= 5 else '6+'))
+        if not (isinstance(model, list) and len(model) >= 2 and model[0] == 'ok' and model[1] == code):
+            res.disagreements.append({'stream': stream, 'case': c, 'model': repr(model[:2] if isinstance(model, list) else model)[:900],
+                                      'real': repr(code)[:900]})
+            continue
+        if c['mode'] == 'exec':
+            # the reader `retok` against tokenize on the same string
+            stream = 'retok-vs-tokenize'
+            res.streams[stream] = res.streams.get(stream, 0) + 1
+            want = [[d, l] for d, l in real[1]]
+            got = model[2] if len(model) > 2 else None
+            ok = isinstance(got, list) and len(got) == len(want)
+            if ok:
+                for (d, l), g in zip(want, got):
+                    if str(d) != str(g[0]) or G.flat_tokens(g[1]) != l:
+                        ok = False
+                        break
+            depth = max([d for d, _ in want] or [0])
+            res.count('retok:depth=%s' % (depth if depth < 4 else '4+'))
+            if '\n    \n' in code or '\n' + ' ' * 8 + '\n' in code:
+                res.count('retok:blank-line')
+            if not ok:
+                res.disagreements.append({'stream': stream, 'case': c, 'model': repr(got)[:900], 'real': repr(want)[:900]})
 
 
 def compare_leaves(items, res):
